@@ -195,14 +195,20 @@ func genValueArray(n *node) func(*frame) reflect.Value {
 	return value
 }
 
-func genValueRangeArray(n *node) func(*frame) reflect.Value {
+func genValueRangeArray(n *node, keyOnly bool) func(*frame) reflect.Value {
 	value := genValue(n)
 
 	switch {
 	case n.typ.TypeOf().Kind() == reflect.Ptr:
 		// dereference array pointer, to support array operations on array pointer
+		zero := reflect.Zero(n.typ.TypeOf().Elem())
 		return func(f *frame) reflect.Value {
-			return value(f).Elem()
+			v := value(f)
+			if keyOnly && v.IsNil() {
+				// The pointer is not dereferenced if only the key is used: the length is given by the type.
+				return zero
+			}
+			return v.Elem()
 		}
 	case n.typ.val != nil && n.typ.val.cat == interfaceT:
 		if len(n.typ.val.field) > 0 {
